@@ -41,12 +41,12 @@ def run_case(case, rnd, n_points):
     rec = {"fam": fam, "cens": str(case["cens"]), "pos": str(case["pos"]), "shp": str(case["shp"]), "src": bool(case["src"]),
            "yb": str(case["yb"]), "pb": str(case["pb"]), "kind": kind, "n_points": 0}
     ok, fin, lay, routes = True, True, True, True
-    notes = {"d_self_ok": 0, "d_self_bad": 0, "jac_ok": 0, "jac_bad": 0, "jac_example": None}
+    notes = {"d_self_ok": 0, "d_self_bad": 0, "jac_ok": 0, "jac_bad": 0, "jac_example": None, "pred_ok": 0, "pred_bad": 0, "pred_example": None}
     worst = None
     for _ in range(n_points):
         env = {"pi": math.pi}
         try:
-            got, ref, lay_p, routes_p = _point(fam, term, kind, rec, env, rnd, aux)
+            got, ref, lay_p, routes_p = _point(fam, term, kind, rec, env, rnd, aux, notes)
             if jac[0] != "none":
                 _derivative_notes(fam, term, jac, env, notes)
         except Exception as e:  # noqa: BLE001 - the library raised on a value inside the support: a verdict, not a machinery failure
@@ -101,7 +101,7 @@ def _same_values(a, b):
     return a.shape == b.shape and bool(torch.allclose(a, b, rtol=1e-6, atol=1e-6, equal_nan=False))
 
 
-def _point(fam, term, kind, rec, env, rnd, aux=()):
+def _point(fam, term, kind, rec, env, rnd, aux=(), notes=None):
     """One numeric point of the case: (value of the real family, value of the term, layouts agree, routes agree)."""
     lay, routes = True, True
     if True:
@@ -182,6 +182,24 @@ def _point(fam, term, kind, rec, env, rnd, aux=()):
                 hz = float(fam_cls.compute_hazard(x, *args)[0, 0])
                 routes &= close(ls, ev(ls_term, env), rel=5e-4, abs_=1e-7) and close(hz, ev(haz_term, env), rel=5e-4, abs_=1e-30)
                 rec["route_gap"] = max(rec.get("route_gap", 0.0), abs(hz - ev(haz_term, env)) / (abs(hz) + 1e-300))
+                # note (never in the verdict): the corrected survival S(t) / S(t0) predicted for one individual of a single-event
+                # joint model (t0 = the first requested time) against exp(LogSurvivalTerm(t) - LogSurvivalTerm(t0))
+                if notes is not None:
+                    try:
+                        times = [t, t + 1.0, t + 4.5]
+                        xw = WeightedTensor(torch.tensor([[v] for v in times], dtype=torch.float64), torch.zeros(3, 1).bool())
+                        a1 = [args[0], args[1], args[2][:1], args[3][:1]] + ([args[4][:1]] if rec["src"] else [])
+                        pred = fam_cls.compute_predictions(xw, *a1).reshape(-1)
+                        exp_p = [math.exp(ev(ls_term, dict(env, t=v)) - ev(ls_term, env)) for v in times]
+                        good = all(close(float(pred[i]), exp_p[i], rel=2e-3, abs_=1e-6) for i in range(3))
+                        notes["pred_ok" if good else "pred_bad"] += 1
+                        if not good and notes["pred_example"] is None:
+                            notes["pred_example"] = {"got": [float(v) for v in pred], "expected": exp_p}
+                    except Exception as e:  # noqa: BLE001 - a note only
+                        notes["pred_bad"] += 1
+                        if notes["pred_example"] is None:
+                            notes["pred_example"] = {"raised": f"{type(e).__name__}: {str(e)[:120]}"}
+            # layout with two competing events per individual, each with its own censoring flag
             tt2 = torch.tensor([[t, tau + 2.0], [tau + 1.0, t]], dtype=torch.float64)
             wb2 = torch.tensor([[observed, not observed], [not observed, observed]])
             a2 = [torch.tensor([env["nu"], env["nu"]]), torch.tensor([rho, rho]), torch.tensor([[env["xi"]], [env["xi"]]]),
